@@ -422,7 +422,7 @@ def run_property(prop_id, tier, seed):
                     known_lines.append(line)
                 elif rec['failed'] and rec['status'] == 'fixed':
                     violations.append(dict(replay=rec['replay'], clause='regression',
-                                           message='fixed finding %s is back: %s' % (rec['id'], rec['message'])))
+                                           message='pinned replay of fixed finding %s fails: %s' % (rec['id'], rec['message'])))
         # 2. shards
         procs = []
         for k in range(nshards):
